@@ -17,7 +17,8 @@ def mapperOfJson (j : Json) : Except String TMapper :=
   | .str "none" => pure .none
   | .str "camel" => pure .camel
   | .str "lower" => pure .lower
-  | .str "complex" => pure .complex
+  | .str "complex" => pure (.complex false)
+  | .str "complex-list" => pure (.complex true)
   | .str s => throw s!"mapper {s}"
   | _ => do
     let r ← j.getObjVal? "rename"
@@ -69,7 +70,7 @@ def run (j : Json) : Except String Json := do
       | .ok x => out := out ++ [("serX", resToJson (serialize O cls x))]
       | .error _ => pure ()
       match tru with
-      | .ok y => out := out ++ [("serY", resToJson (serialize O cls y))]
+      | .ok y => out := out ++ [("serY", resToJson (serialize O cls y)), ("yWellFormed", .bool (wellFormed O cls y))]
       | .error _ => pure ()
       match reg, tru with
       | .ok x, .ok y => out := out ++ [("eqv", .bool (eqv x y))]
